@@ -43,8 +43,8 @@ theorem skel_handleHandshake :
        "getConnectionByConnID", "getConnectionByConnID"] := by decide
 theorem skel_CloseConnection :
     Skel.CloseConnection =
-      ["connLock.Lock", "delete", "connLock.Unlock", "Stream.Close", "RawConn.Close", "RemoveControlConnection",
-       "RemoveTunnelConnection"] := by decide
+      ["connLock.Lock", "delete", "connLock.Unlock", "Stream.Close", "RawConn.Close", "streamMgr.RemoveStream",
+       "RemoveControlConnection", "RemoveTunnelConnection"] := by decide
 theorem skel_RemoveControlConnection :
     Skel.RemoveControlConnection =
       ["clientRegistry.GetByConnID", "clientRegistry.Remove", "cloudControl.DisconnectClientIfMatch"] := by decide
@@ -70,7 +70,9 @@ theorem guard_RemoveControlConnection :
     Guard.RemoveControlConnection =
       ["if conn != nil", "if authenticated && clientID > 0 && s.cloudControl != nil", "if err != nil", "if disconnected"] := by
   decide
-theorem skel_CreateConnection : Skel.CreateConnection = ["connLock.Lock", "connLock.Unlock", "connLock.Unlock"] := by decide
+/-- the connection id is claimed in the StreamManager first (an id in use is refused there) -/
+theorem skel_CreateConnection :
+    Skel.CreateConnection = ["streamMgr.CreateStream", "connLock.Lock", "connLock.Unlock", "connLock.Unlock"] := by decide
 theorem skel_handleHeartbeat : Skel.handleHeartbeat = ["clientRegistry.GetByConnID", "UpdateActivity"] := by decide
 theorem skel_TunnelRemove : Skel.TunnelRemove = ["mu.Lock", "mu.Unlock", "delete", "delete"] := by decide
 
@@ -100,7 +102,8 @@ theorem guard_findOldest :
   decide
 theorem guard_CloseConnection :
     Guard.CloseConnection =
-      ["if exists", "if conn != nil", "if conn.Stream != nil", "if conn.RawConn != nil", "if s.connStateStore != nil",
+      ["if exists", "if conn != nil", "if conn.Stream != nil", "if conn.RawConn != nil", "if s.streamMgr != nil",
+       "if s.connStateStore != nil",
        "if err := s.connStateStore.UnregisterConnection(s.Ctx(), connectionId); err != nil"] := by decide
 
 /-! ## The property -/
@@ -264,6 +267,15 @@ example :
       { cl := [some ⟨1, 1, true, true⟩],
         cn := [⟨none, true, false, true⟩, ⟨some (1, true), true, false, false⟩], la := [1],
         count := 1, total := 2, control := 1, tunnel := 0, active := 1 } = false := by decide
+
+/-- non-vacuity for connection-id reuse: the id comes back after its connection was torn down (a new
+incarnation on a new transport), logs in again and is the current connection of the client; an
+`accept` of an id that is in use changes nothing -/
+example :
+    obsOf (run .repaired (init 1 0)
+      [.accept 0, .hsAuth 0 1 true, .hsFin 0, .accept 0, .close 0, .accept 0, .hsAuth 0 1 true, .hsFin 0]) 1
+    = { cl := [some ⟨0, 1, true, true⟩], cn := [⟨some (1, true), true, false, false⟩], la := [0],
+        count := 1, total := 1, control := 1, tunnel := 0, active := 1 } := by decide
 
 /-! ## Non-vacuity and recorded findings -/
 
